@@ -273,6 +273,15 @@ def ev(node, env):
         if not isinstance(v, int):
             raise Unsupported('bit_length of %s' % type(v).__name__)
         return v.bit_length()
+    if isinstance(node, ast.Call) and isinstance(node.func, ast.Attribute) and node.func.attr == 'format' and not node.keywords and isinstance(node.func.value, ast.Constant) \
+            and isinstance(node.func.value.value, str):
+        a_ = [ev(x, env) for x in node.args]
+        if all(isinstance(x, (int, str)) and not isinstance(x, bool) for x in a_):
+            try:
+                return node.func.value.value.format(*a_)      # text formatting of the interpreter's own integers and strings
+            except (IndexError, KeyError, ValueError):
+                raise Unsupported('format')
+        raise Unsupported('format of %r' % (a_,))
     if isinstance(node, ast.Call) and isinstance(node.func, ast.Attribute) and node.func.attr in ('items', 'keys', 'values', 'get') and not node.keywords:
         b = ev(node.func.value, env)
         if isinstance(b, dict):
